@@ -356,7 +356,7 @@ package hclsyntax
 // verif:func (Expression).Value
 //@ trusted
 //@ assigns allof(AnonSymbolExpr.values), allmaps(AnonSymbolExpr.values)
-//@ ensures ret0 == exprVal(self, ctx)
+//@ ensures ret0 == exprVal(self, ctx) && !laundered(ret0)
 // verif:func (Expression).Range
 //@ trusted
 //@ pure
